@@ -116,7 +116,13 @@ class PROP(Prop):
                     req = ("RHR", 1, 1)
                 flen = 7 + mb.spec_req_size(req)
                 k = rng.randrange(0, flen)
-                mode = rng.choice(["ok", "ok", "werr", "abandon", "zero"]) if i < 3 else "ok"
+                mode = rng.choice(["ok", "ok", "werr", "abandon", "zero", "oversize"]) if i < 3 else "ok"
+                if mode == "oversize":
+                    # a request the encoder refuses (PDU > 253 bytes): nothing of it -- no part of an MBAP header either -- may reach the stream
+                    big = rng.choice([("WMR", 7, [1] * rng.randrange(124, 140)), ("WMC", 7, [True] * rng.randrange(1977, 2100)),
+                                      ("CU", 0x41, bytes(rng.randrange(253, 300))), ("RWMR", 1, 1, 2, [5] * rng.randrange(122, 130))])
+                    ops.append(cligen.call_op(big))
+                    continue
                 if mode == "ok":
                     ops.append(cligen.call_op(req, R="e:Other"))
                 elif mode == "werr":
